@@ -48,8 +48,10 @@ pub struct SeqCfg {
     pub orders: usize,
     /// include the blocking calls (recv / recv_view)
     pub blocking: bool,
-    /// include the MPMCFutUniReceiver::add_stream_with / transform path
+    /// include the *FutUniReceiver::add_stream_with path
     pub uni_streams: bool,
+    /// appended to the family label in signatures
+    pub suffix: &'static str,
 }
 
 impl MState {
@@ -506,9 +508,10 @@ fn run_history(
     let live1 = valloc::live();
     let mem = rt::exec_end();
     let fl = format!(
-        "{}{}",
+        "{}{}{}",
         if c.qc.fl == Flavour::B { "bcast" } else { "mpmc" },
-        if c.qc.fut { "-fut" } else { "" }
+        if c.qc.fut { "-fut" } else { "" },
+        c.suffix
     );
     for m in &mem.faults {
         let sig = match m {
@@ -802,7 +805,15 @@ fn configs(prop: &str, tier: Tier) -> Vec<SeqCfg> {
                 },
                 blocking: matches!(prop, "C09" | "C15"),
                 uni_streams: prop == "C05" && fl == Flavour::B,
+                suffix: "",
             });
+            if prop == "C05" && fl == Flavour::M && fut && cap <= 2 {
+                // a second stream on a move-out queue (MPMCFutUniReceiver::add_stream_with)
+                let mut c2 = *v.last().unwrap();
+                c2.uni_streams = true;
+                c2.suffix = "+second-stream-via-add_stream_with";
+                v.push(c2);
+            }
         }
     }
     v
@@ -826,6 +837,7 @@ fn pump(st: &mut SeqStats, fl: Flavour, fut: bool, cap: u64, label: &str) {
         orders: 1,
         blocking: false,
         uni_streams: false,
+        suffix: "",
     };
     // base pump: 3 rounds of (N+1 sends, N+1 receives)
     let mut base: Vec<Op> = Vec::new();
@@ -1052,9 +1064,10 @@ pub fn main(prop: &str, tier: Tier, si: usize, sk: usize) {
         for c in configs(prop, tier) {
             st.configs.push(format!("{}:depth{}", c.qc.label(), c.depth));
             let fl = format!(
-                "{}{}",
+                "{}{}{}",
                 if c.qc.fl == Flavour::B { "bcast" } else { "mpmc" },
-                if c.qc.fut { "-fut" } else { "" }
+                if c.qc.fut { "-fut" } else { "" },
+                c.suffix
             );
             let mut d = Dfs {
                 c,
@@ -1162,6 +1175,11 @@ pub fn replay(path: &str) {
                     orders: 4,
                     blocking: true,
                     uni_streams: true,
+                    suffix: if sig.contains("+second-stream-via-add_stream_with") {
+                        "+second-stream-via-add_stream_with"
+                    } else {
+                        ""
+                    },
                 };
                 // the history must be well-formed for this family
                 let ok = std::panic::catch_unwind(|| {
@@ -1200,7 +1218,7 @@ pub fn replay(path: &str) {
                         shard: (0, 1),
                         frontier_depth: 0,
                         frontier_idx: 0,
-                        fl: lbl.clone(),
+                        fl: format!("{}{}", lbl, c.suffix),
                     };
                     d.compare(&ops, &out, &preds, &hist, true);
                     if st.findings.keys().any(|k| *k == sig) {
